@@ -146,6 +146,10 @@ pub fn check_c06(e: &Emitted) -> (Option<Violation>, Option<Parsed>) {
             if off + k > e.pdu.len() || pkt[p.payload.clone()] != e.pdu[off..off + k] {
                 return (v("C06.field_order", "payload", format!("payload of {} bytes is not pdu[{}..{}]", k, off, off + k)), Some(p));
             }
+            // the CRC field closes an end packet: its four bytes are the CRC the context carries
+            if kind == Kind::End && p.crc != Some(ctx.crc()) {
+                return (v("C06.field_order", "crc", format!("the last four bytes of the end packet read {:08x?}, the context carries {:08x}", p.crc, ctx.crc())), Some(p));
+            }
         }
         Kind::Complete | Kind::First => {
             // label type bits vs label actually written
